@@ -315,6 +315,9 @@ class _ShaHasher(PasswordHasher):
 
         if info is None:
             return False
+        if info.rounds is not None and not 1000 <= info.rounds <= 999_999_999:
+            # outside the range the format allows (and that __init__ enforces): not a hash of ours.
+            return False
         hashed = _sha_crypt(
             secret=as_bytes(secret),
             salt=as_bytes(info.salt),
